@@ -83,6 +83,10 @@ def check(ctx):
     base += [("sv", "module a; wire x; endmodule\nmodule b (input c, output d); assign d = ~c; endmodule\npackage p; endpackage\n"),
              ("sv", "module m; initial begin $display(\"s\", 4 'b0101, \\esc ); if (a) b = 1; else b = 2; end endmodule\n")]
     base += [("sv", t) for t in snippets.KW_REGIONS]
+    # texts in which the white space behind a conditional directive is the only thing between two tokens
+    base += [("sv", "module m (`ifdef A_ input`else output`endif wire w); endmodule\n"),
+             ("sv", "module m;\n`ifdef A_\n`else\n wire a;`endif wire b;\n`ifndef A_ wire c;`endif wire d;\nendmodule\n"),
+             ("sv", "`define T_ 1\nmodule m; wire [`T_:0] x;`ifdef T_ wire y;`endif wire z; endmodule\n")]
     c0 = []
     for i, (k, s) in enumerate(base):
         c = Case("b%d" % i).add("want", "tree", "text")
@@ -145,6 +149,28 @@ def check(ctx):
             cc = Case("m%d" % n); n += 1
             cc.add("want", "tree").add("run", "parse_sv_str", hx(broken.decode("utf-8")), hx("t.sv"))
             cases.append(cc); meta[cc.id] = ("broken", s, broken.decode("utf-8"), None)
+    # templates with conditional directives and macro usages (their preprocessed text is not the source, so the runs above
+    # cannot be used): the mark stands where the trivia goes, a single blank is the reference
+    TEMPL = ["module\u00a7m (`ifdef A_ input`else output`endif wire w); endmodule\n",
+             "module m;\u00a7\n`ifdef A_\n`else\n wire a;`endif wire b;\n`ifndef A_ wire c;`endif wire d;\nendmodule\n",
+             "`define T_ 1\nmodule\u00a7m; wire [`T_:0] x;`ifdef T_ wire y;`endif wire z; endmodule\n",
+             "module m;\u00a7wire a;`ifdef U_ `elsif V_ `else wire e;`endif wire f; endmodule\n"]
+    tref = [Case("tr%d" % i).add("want", "tree", "text").add("run", "preprocess_str", hx(t.replace("\u00a7", " ")), hx("t.sv"))
+            .add("run", "parse_sv_str", hx(t.replace("\u00a7", " ")), hx("t.sv")) for i, t in enumerate(TEMPL)]
+    timpl = run_harness("api", tref, "c12t", timeout=600)
+    for c, t in zip(tref, TEMPL):
+        lines = timpl.get(c.id) or []
+        tl = [l for l in lines if l.startswith("tree ")]
+        tx = [l for l in lines if l.startswith("text ")]
+        if not tl or not tx:
+            continue
+        sk = svtree.skeleton(svtree.parse_tree_line(tl[0]), text=unhx(tx[0].split()[1]))
+        for tv in DIRECTIVES + COMMENTS + BLANKS:
+            for lead in (" ", ""):
+                t2 = t.replace("\u00a7", lead + tv + ("" if tv[-1:] in " \n" else " "))
+                cc = Case("m%d" % n); n += 1
+                cc.add("want", "tree", "text").add("run", "preprocess_str", hx(t2), hx("t.sv")).add("run", "parse_sv_str", hx(t2), hx("t.sv"))
+                cases.append(cc); meta[cc.id] = ("trivia", t.replace("\u00a7", " "), t2, sk)
     impl = run_harness("api", cases, "c12b", timeout=1800)
     bad = None
     for cc in cases:
